@@ -418,9 +418,10 @@ type cacheGen struct {
 	r       *rand.Rand
 	targets []string // all names ever used
 	shared  int
-	fav     string // favourite value arm of this scenario
-	w       []int // weights of the op kinds, see cacheProfiles
-	tsDense bool  // timestamps close together (many equal / out-of-order)
+	fav     string    // favourite value arm of this scenario
+	hist    []cacheOp // recent GnmiUpdate ops, source of same-timestamp variants
+	w       []int     // weights of the op kinds, see cacheProfiles
+	tsDense bool      // timestamps close together (many equal / out-of-order)
 }
 
 // Weights per op kind: single, multi, atomic, delete, empty, unknown-target, Sync, Connect,
@@ -490,7 +491,50 @@ func (g *cacheGen) dataPath(target string, glob bool) (*pathDesc, pathDesc) {
 
 func (g *cacheGen) pickTarget() string { return g.targets[g.r.Intn(len(g.targets))] }
 
+// op returns the next operation. About one in eight is a variant of a recent notification: the same
+// prefix and (mostly) the same timestamp with one small difference -- none at all, one value, one
+// update more or less -- which is where "identical", "different at the same timestamp" and "newer"
+// have to be told apart.
 func (g *cacheGen) op(now *int64) cacheOp {
+	r := g.r
+	if len(g.hist) > 0 && r.Intn(8) == 0 {
+		o := g.hist[r.Intn(len(g.hist))]
+		*now += int64(r.Intn(2))
+		o.Now = *now
+		o.Ups = append([]updDesc(nil), o.Ups...)
+		o.Dels = append([]pathDesc(nil), o.Dels...)
+		if r.Intn(5) == 0 {
+			o.Ts += int64(r.Intn(3)) - 1
+			if o.Ts < 1 {
+				o.Ts = 1
+			}
+		}
+		switch k := r.Intn(5); {
+		case k == 0 && len(o.Ups) > 0:
+			i := r.Intn(len(o.Ups))
+			o.Ups[i].Val = randValFav(r, o.Ups[i].Val.Arm)
+		case k == 1 && len(o.Ups) > 1:
+			o.Ups = o.Ups[:len(o.Ups)-1]
+		case k == 2 && len(o.Ups) > 0:
+			o.Ups = append(o.Ups, updDesc{pathDesc{Elems: []elemDesc{{Name: []string{"x", "y", "z"}[r.Intn(3)]}}}, randValFav(r, g.fav)})
+		case k == 3 && len(o.Ups) > 1:
+			i := 1 + r.Intn(len(o.Ups)-1)
+			o.Ups[i].Val = randValFav(r, o.Ups[i].Val.Arm)
+		}
+		return o
+	}
+	o := g.fresh(now)
+	if o.Op == "GnmiUpdate" && o.T != "" {
+		if len(g.hist) < 6 {
+			g.hist = append(g.hist, o)
+		} else {
+			g.hist[r.Intn(len(g.hist))] = o
+		}
+	}
+	return o
+}
+
+func (g *cacheGen) fresh(now *int64) cacheOp {
 	r := g.r
 	*now += int64(r.Intn(3))
 	ts := *now - 8 + int64(r.Intn(24))
